@@ -1,15 +1,21 @@
 // tsrun group binary: `tsrun factgen ...` and `tsrun corr ...` (properties C01, C16).
+// Invoked through a link named `vh` it is the helper program the generated scripts `exec` (helper.go).
 package main
 
 import (
 	"fmt"
 	"os"
+	"path/filepath"
 
 	"verif/harness/internal/corr"
 	"verif/harness/internal/fact"
 )
 
 func main() {
+	if filepath.Base(os.Args[0]) == "vh" { // the scripts' helper program (helper.go)
+		helperMain(os.Args[1:])
+		return
+	}
 	if len(os.Args) < 2 {
 		fmt.Fprintln(os.Stderr, "usage: tsrun factgen|corr [flags]")
 		os.Exit(2)
